@@ -2,6 +2,7 @@ package sim
 
 import (
 	"fmt"
+	"strings"
 
 	"github.com/elnosh/gonuts/cashu"
 	"github.com/elnosh/gonuts/wallet"
@@ -52,6 +53,9 @@ func coreC19(tier string) []RunSpec {
 	// attached, which the mint reports with their SPENT state; then the sender restores from the seed
 	for wi := 0; wi < 3; wi++ {
 		out = append(out, RunSpec{Profile: "core:outside-redeem-then-restore", Params: map[string]int{"scenario": 7, "fee": 0, "wit": wi}})
+	}
+	for k := 0; k < 3; k++ {
+		out = append(out, RunSpec{Profile: "core:token-with-respelled-mint-url", Params: map[string]int{"scenario": 8, "fee": 0, "k": k}})
 	}
 	// known finding: SIG_ALL token from an untrusted mint, swap-to-trusted fails, received again
 	out = append(out, RunSpec{Profile: "core:sigall-crossmint-again", Params: map[string]int{"scenario": 3, "mints": 2, "fee": 0, "fee2": 0}})
@@ -188,6 +192,42 @@ func runC19(rc *RunCtx) {
 		return
 	case 4:
 		c19SpendAllRestore(ww, rc.P("melt", 0) == 1)
+		return
+	case 8:
+		// a token names the wallet's own mint by another spelling of its URL (trailing slash, upper-case
+		// host): whatever the wallet makes of it, its counters for that mint's keysets stay where they are
+		a, b := ww.Wallets[0], ww.Wallets[1]
+		mint := mintNameOfURL(ww.node(a).Mint)
+		ww.step = 0
+		ww.mintInto(b, 21)
+		var ps cashu.Proofs
+		ww.op("w.send fees=false")
+		ww.W.WalletOp(a, ww.name("send."+a), nil, func(wl *wallet.Wallet) { ps, _ = wl.Send(5, ww.mintURL(mint), false) })
+		if len(ps) == 0 {
+			return
+		}
+		url := []string{ww.mintURL(mint) + "/", strings.Replace(ww.mintURL(mint), "http://", "HTTP://", 1), ww.mintURL(mint) + "//"}[rc.P("k", 0)%3]
+		str, _ := MakeToken(ps, url, false, false)
+		ww.Tokens = append(ww.Tokens, &OutToken{Str: str, Proofs: ps, From: a, Mint: mint, Amount: ps.Amount(), Kind: "plain"})
+		ww.op("w.receive plain respelled-url")
+		ww.W.WalletOp(b, ww.name("recv."+b), nil, func(wl *wallet.Wallet) {
+			if tk, e := cashu.DecodeToken(str); e == nil {
+				if _, e := wl.Receive(tk, false); e == nil {
+					ww.Tokens[len(ww.Tokens)-1].Claimed = true
+				}
+			}
+		})
+		checked = ww.CheckCounters(checked)
+		ww.step++
+		ww.mintInto(b, 13)
+		checked = ww.CheckCounters(checked)
+		ww.step++
+		ww.mintInto(b, 7)
+		checked = ww.CheckCounters(checked)
+		ww.Settle()
+		ww.restoreWallet(b, false, "after a token with a respelled mint URL")
+		rc.S.Probe("c19_respelled_mint_url")
+		rc.Nontrivial = true
 		return
 	case 7:
 		w := ww.Wallets[0]
